@@ -31,7 +31,7 @@
 (*                        collapsed  = -n/2 log 2pi - 1/2 log ca + cr      *)
 (*                        marginal   = -n/2 log 2pi - 1/2 log ma + mr      *)
 (*             TLC checks: the closed form of the optimal q(u)             *)
-(*             (Sopt = Kzz (Kzz + Kzx Kxz / s2)^-1 Kzz, ...) is the Gaussian *)
+(*             (Sopt = Kzz (Kzz + Kzx D^-1 Kxz)^-1 Kzz, ...) is the Gaussian *)
 (*             conditional u | y of the projected model; ELBO(qopt) is the   *)
 (*             collapsed (Titsias) bound, piece by piece; and for EVERY q  *)
 (*             of the family N * ELBO(q) = collapsed - KL(q || qopt), again  *)
@@ -55,7 +55,25 @@
 (*                                                                         *)
 (*  "lattice"  the cells of the float64 replay and the relation the        *)
 (*             property requires in each ("equal": the inducing points are *)
-(*             the batch inputs themselves).                               *)
+(*             the batch inputs themselves), plus                          *)
+(*             "noise" cells: which noise variance enters the per-point    *)
+(*             term of minibatch point k for a likelihood with known       *)
+(*             per-point noise (FixedNoiseGaussianLikelihood, with and     *)
+(*             without learn_additional_noise) when the minibatch is an    *)
+(*             arbitrary index sequence into the data set (subset,         *)
+(*             permutation, resample, B < / = / > number of stored values) *)
+(*             and the per-call keyword `noise=` is given / not given:     *)
+(*             declarative definition vs the transcription of              *)
+(*             FixedGaussianNoise.forward / _shaped_noise_covar, and       *)
+(*             "hist" cells: a state machine over the HISTORY of the raw   *)
+(*             variational parameters (fresh, optimiser steps, dense       *)
+(*             tensors loaded through state_dict / assignment) for every   *)
+(*             variational distribution class: in every reachable state    *)
+(*             the objective is the definition evaluated at the q(u) that  *)
+(*             variational_distribution() reports.                         *)
+(*                                                                         *)
+(*  Instances carry a per-point noise vector nv (homoskedastic: constant); *)
+(*  a non-constant nv is a FixedNoiseGaussianLikelihood.                   *)
 (***************************************************************************)
 EXTENDS LinAlg, TLC
 
@@ -84,9 +102,14 @@ Betas == {<<1, 1>>, <<1, 2>>, <<0, 1>>}
 \* psite: the module the priors are registered on.  "model": all on the ApproximateGP (kernel / mean / its own parameters);
 \* "likelihood": all on the likelihood (e.g. GaussianLikelihood(noise_prior = ...)); "split": prior 1 on the model, prior 2 on the
 \* likelihood.  An ApproximateGP does NOT own its likelihood: only the objective module (children: likelihood, model) reaches both.
+\* kw: the keywords the caller hands to the objective besides (q(f), y); every one of them must reach the likelihood method that
+\* defines the per-point term ("noise": per-point noise of the minibatch, "extra": any other keyword).  The stub likelihood
+\* multiplies its per-point value by 5 when it receives "noise" and by 7 when it receives "extra".
+KwSets == SUBSET {"noise", "extra"}
 Configs == {cf \in [obj : {"elbo", "pll", "gamma"}, B : 1..4, Nk : {"B", "2B", "10"}, beta : Betas, combine : BOOLEAN,
-                    np : 0..2, psite : {"model", "likelihood", "split"}, nl : 0..1, rank : {1, 2}] :
-              /\ (cf.obj = "gamma" => cf.rank = 1)
+                    np : 0..2, psite : {"model", "likelihood", "split"}, nl : 0..1, rank : {1, 2}, kw : KwSets] :
+              /\ (cf.obj = "gamma" => cf.rank = 1 /\ cf.kw = {})
+              /\ (cf.kw # {} => cf.np = 0 /\ cf.nl = 0 /\ cf.beta = <<1, 2>>)
               /\ (cf.np = 0 => cf.psite = "model") /\ (cf.np = 1 => cf.psite # "split")}
 PriorSite(cf, k) == IF cf.psite = "split" THEN (IF k = 1 THEN "model" ELSE "likelihood") ELSE cf.psite
 NumData(cf) == CASE cf.Nk = "B" -> cf.B [] cf.Nk = "2B" -> 2 * cf.B [] OTHER -> 10
@@ -94,13 +117,14 @@ NumData(cf) == CASE cf.Nk = "B" -> cf.B [] cf.Nk = "2B" -> 2 * cf.B [] OTHER -> 
 \* stubs: the value returned for data point i by the likelihood method the objective is defined with
 StubEll(i)   == R(IPow(2, i))          \* expected_log_prob   (also the abstract gamma-robust term)
 StubLogE(i)  == R(3 * IPow(2, i))      \* log_marginal
+KwFactor(kw) == R((IF "noise" \in kw THEN 5 ELSE 1) * (IF "extra" \in kw THEN 7 ELSE 1))
 StubKL       == R(1000)
 StubPrior(k) == R(IPow(10, k + 4))
 PriorElems(k) == [e \in 1..k |-> RDiv(StubPrior(k), R(k))]     \* log_prob of a k-element parameter, element by element
 StubAdded    == R(7000000)
 
 \* ---- definition
-PointTerm(cf, i) == IF cf.obj = "pll" THEN StubLogE(i) ELSE StubEll(i)
+PointTerm(cf, i) == RMul(KwFactor(cf.kw), IF cf.obj = "pll" THEN StubLogE(i) ELSE StubEll(i))    \* the likelihood's term GIVEN the caller's keywords
 DefTerms(cf) ==
   LET N == R(NumData(cf))
   IN [lik   |-> RDiv(RSum([i \in 1..cf.B |-> PointTerm(cf, i)]), R(cf.B)),
@@ -114,7 +138,9 @@ DefCoef(cf) == LET N == R(NumData(cf)) IN [lik |-> RDiv(ROne, R(cf.B)), kl |-> R
 \* ---- transcription of _ApproximateMarginalLogLikelihood.forward
 EventShape(cf) == IF cf.rank = 1 THEN <<cf.B>> ELSE <<cf.B, 2>>           \* approximate_dist_f.event_shape
 \* likelihood.expected_log_prob / log_marginal: one value per data point (a multitask likelihood has summed over the tasks)
-PerPoint(cf) == [i \in 1..cf.B |-> IF cf.obj = "pll" THEN StubLogE(i) ELSE StubEll(i)]
+\* forward(approximate_dist_f, target, **kwargs) -> _log_likelihood_term(approximate_dist_f, target, **kwargs) -> likelihood.<method>(target, dist, **kwargs)
+Forwarded(cf) == cf.kw
+PerPoint(cf) == [i \in 1..cf.B |-> RMul(KwFactor(Forwarded(cf)), IF cf.obj = "pll" THEN StubLogE(i) ELSE StubEll(i))]
 CodeLik(cf) == LET num_batch == EventShape(cf)[1] IN RDiv(RSum(PerPoint(cf)), R(num_batch))      \* .sum(-1) ... .div(num_batch)
 CodeKL(cf) ==
   LET N == R(NumData(cf))
@@ -155,14 +181,22 @@ PositiveBetaOK   == Part = "assembly" => (~IsZero(c.beta) => out.agree)
 PredictionsSharp == (Part = "assembly" /\ Repairs = {}) => (out.agree <=> ~IsZero(c.beta))
 
 \* ============================ parts "bound" and "ngd": rational instances ======================
-\* instance [Z |-> M x d integers, X |-> n x d integers, y |-> n integers, s2 |-> integer noise, mc |-> integer mean constant]
-\* prior: u = f(Z) ~ N(mc, Z Z^T), f(X) | u Gaussian conditional, y = f(X) + N(0, s2)
-QFamily == {"prior", "post", "wide", "shift", "ident", "thin", "tilt"}
+\* instance [Z |-> M x d integers, X |-> n x d integers, y |-> n integers, nv |-> n integer noise variances (constant vector:
+\* GaussianLikelihood; otherwise the known per-point noise of a FixedNoiseGaussianLikelihood), mc |-> integer mean constant]
+\* prior: u = f(Z) ~ N(mc, Z Z^T), f(X) | u Gaussian conditional, y_k = f(X_k) + N(0, nv[k])
+\* "raw": q(u) given through a DENSE raw factor C (RawC): the covariance is Tril(C) Tril(C)^T, the entries above the diagonal are
+\* not parameters of q(u) (CholeskyVariationalDistribution: "we only consider the lower triangle"); the replay loads C as it is
+QFamily == {"prior", "post", "wide", "shift", "ident", "thin", "tilt", "raw"}
+RawForms == {"tri", "dense"}     \* form of the raw factor the replay hands to the distribution; BoundOut does not depend on it
+RECURSIVE RProd(_)
+RProd(q) == IF q = <<>> THEN ROne ELSE RMul(Head(q), RProd(Tail(q)))
+RawC(M) == Mk(M, M, LAMBDA a, b : IF a = b THEN R(a) ELSE IF a > b THEN R(-1) ELSE R(a + b))
+TrilOf(C) == Mk(Len(C), Len(C), LAMBDA a, b : IF a >= b THEN C[a][b] ELSE RZero)
 
 Geo(i) ==
   LET Zr == FromInt(i.Z)  Xr == FromInt(i.X)
       M == Len(i.Z)  n == Len(i.X)
-      s2 == R(i.s2)
+      nv == VFromInt(i.nv)
       K == E(MMul(Zr, Tr(Zr)))
       Kzx == E(MMul(Zr, Tr(Xr)))
       Kxx == E(MMul(Xr, Tr(Xr)))
@@ -172,18 +206,19 @@ Geo(i) ==
       mz == [k \in 1..M |-> R(i.mc)]
       mx == [k \in 1..n |-> R(i.mc)]
       yv == VFromInt(i.y)
-      C == E(MAdd(Qxx, MScale(s2, Ident(n))))
+      C == E(MAdd(Qxx, Diag(nv)))
       Ci == E(Inv(C))
-  IN [M |-> M, n |-> n, s2 |-> s2, K |-> K, Kzx |-> Kzx, Kxx |-> Kxx, Ki |-> Ki, A |-> A, Qxx |-> Qxx, mz |-> mz, mx |-> mx,
+  IN [M |-> M, n |-> n, nv |-> nv, K |-> K, Kzx |-> Kzx, Kxx |-> Kxx, Ki |-> Ki, A |-> A, Qxx |-> Qxx, mz |-> mz, mx |-> mx,
       yv |-> yv, C |-> C, Ci |-> Ci,
-      \* the optimal q(u), declaratively: u | y in the projected model y | u ~ N(mx + Kxz Kzz^-1 (u - mz), s2 I)
+      \* the optimal q(u), declaratively: u | y in the projected model y | u ~ N(mx + Kxz Kzz^-1 (u - mz), diag(nv))
       qsm |-> EV(VAdd(mz, MVec(Kzx, MVec(Ci, VSub(yv, mx))))),               \* = LinAlg!CondMean(mz, Kzx, C, yv, mx)
       qsS |-> E(MSub(K, E(MMul(Kzx, E(MMul(Ci, Tr(Kzx)))))))]                \* = LinAlg!CondCov(K, Kzx, C)
 
 \* the closed form quoted by the property's proof obligations
 ClosedForm(g) ==
-  LET Sg == E(Inv(E(MAdd(g.K, MScale(RDiv(ROne, g.s2), E(MMul(g.Kzx, Tr(g.Kzx))))))))
-      r == EV([k \in 1..g.n |-> RDiv(RSub(g.yv[k], g.mx[k]), g.s2)])
+  LET KD == E(Mk(g.M, g.n, LAMBDA a, b : RDiv(g.Kzx[a][b], g.nv[b])))                       \* Kzx diag(nv)^-1
+      Sg == E(Inv(E(MAdd(g.K, E(MMul(KD, Tr(g.Kzx)))))))
+      r == EV([k \in 1..g.n |-> RDiv(RSub(g.yv[k], g.mx[k]), g.nv[k])])
       KSg == E(MMul(g.K, Sg))
   IN <<EV(VAdd(g.mz, MVec(E(MMul(KSg, g.Kzx)), r))), E(MMul(KSg, g.K))>>
 
@@ -196,6 +231,7 @@ Family(g, ql) ==
     [] ql = "thin"  -> <<g.mz, E(Diag([k \in 1..g.M |-> IF k = 1 THEN RQ(1, 10) ELSE ROne]))>>
     [] ql = "tilt"  -> <<EV([k \in 1..g.M |-> IF k = 1 THEN ROne ELSE R(-1)]),
                          IF g.M = 1 THEN << <<R(3)>> >> ELSE E(Mk(g.M, g.M, LAMBDA a, b : IF a = b THEN (IF a = 1 THEN R(2) ELSE ROne) ELSE IF a + b = 3 THEN ROne ELSE RZero))>>
+    [] ql = "raw"   -> <<EV([k \in 1..g.M |-> IF k = 1 THEN ROne ELSE RZero]), LET T == E(TrilOf(RawC(g.M))) IN E(MMul(T, Tr(T)))>>
 
 \* pieces of the ELBO of q(u) = N(m, S) on the full data set
 Pieces(g, m, S) ==
@@ -203,13 +239,13 @@ Pieces(g, m, S) ==
       mu == EV(VAdd(g.mx, MVec(Tr(g.A), dm)))                                       \* q(f) mean
       ASA == E(MMul(Tr(g.A), E(MMul(S, g.A))))
       v == EV([k \in 1..g.n |-> RAdd(RSub(g.Kxx[k][k], g.Qxx[k][k]), ASA[k][k])])   \* q(f) marginal variances
-      ell == EV([k \in 1..g.n |-> LET e == RSub(g.yv[k], mu[k]) IN RNeg(RDiv(RAdd(RMul(e, e), v[k]), RMul(R(2), g.s2)))])
+      ell == EV([k \in 1..g.n |-> LET e == RSub(g.yv[k], mu[k]) IN RNeg(RDiv(RAdd(RMul(e, e), v[k]), RMul(R(2), g.nv[k])))])
       klr == RMul(Half, RSub(RAdd(TraceOf(E(MMul(g.Ki, S))), Dot(dm, EV(MVec(g.Ki, dm)))), R(g.M)))
       kla == RDiv(Det(g.K), Det(S))
   IN [mu |-> mu, v |-> v,
-      ell |-> ell,                    \* E_q[log p(y_k|f_k)] = -1/2 log(2 pi s2) + ell[k]
+      ell |-> ell,                    \* E_q[log p(y_k|f_k)] = -1/2 log(2 pi nv[k]) + ell[k]
       klr |-> klr, kla |-> kla,       \* KL(q(u) || p(u)) = klr + 1/2 log kla
-      er |-> RSub(RSum(ell), klr), ea |-> RMul(RPowN(g.s2, g.n), kla)]
+      er |-> RSub(RSum(ell), klr), ea |-> RMul(RProd(g.nv), kla)]
 
 KLrat(m, S, m0, S0) ==       \* KL(N(m,S) || N(m0,S0)) = this + 1/2 log(det S0 / det S)
   LET P0 == E(Inv(S0))  d == EV(VSub(m, m0))
@@ -221,12 +257,12 @@ BoundOut(i, ql) ==
       P == Pieces(g, q[1], q[2])
       Ps == Pieces(g, g.qsm, g.qsS)
       r == EV(VSub(g.yv, g.mx))
-      G == E(MAdd(g.Kxx, MScale(g.s2, Ident(g.n))))
-      cr == RSub(RMul(RQ(-1, 2), Dot(r, EV(MVec(g.Ci, r)))), RDiv(TraceOf(E(MSub(g.Kxx, g.Qxx))), RMul(R(2), g.s2)))
+      G == E(MAdd(g.Kxx, Diag(g.nv)))
+      cr == RSub(RMul(RQ(-1, 2), Dot(r, EV(MVec(g.Ci, r)))), RSum([k \in 1..g.n |-> RDiv(RSub(g.Kxx[k][k], g.Qxx[k][k]), RMul(R(2), g.nv[k]))]))
       ca == Det(g.C)
       mr == RMul(RQ(-1, 2), Dot(r, EV(MVec(E(Inv(G)), r))))
       ma == Det(G)
-  IN [qm |-> q[1], qS |-> q[2], mu |-> P.mu, v |-> P.v, ell |-> P.ell, klr |-> P.klr, kla |-> P.kla, er |-> P.er, ea |-> P.ea,
+  IN [qm |-> q[1], qS |-> q[2], rawC |-> RawC(g.M), mu |-> P.mu, v |-> P.v, ell |-> P.ell, klr |-> P.klr, kla |-> P.kla, er |-> P.er, ea |-> P.ea,
       cr |-> cr, ca |-> ca, mr |-> mr, ma |-> ma, qsm |-> g.qsm, qsS |-> g.qsS,
       pd |-> IsPD(g.K) /\ IsPD(q[2]) /\ IsSym(q[2]) /\ IsPD(g.qsS) /\ IsPSD(E(MSub(g.Kxx, g.Qxx))),
       closed |-> ClosedForm(g) = <<g.qsm, g.qsS>>,
@@ -245,9 +281,10 @@ ToNat(m, S) == LET P == E(Inv(S)) IN <<EV(MVec(P, m)), E(MScale(RQ(-1, 2), P))>>
 LossGrad(g, m, S) ==
   LET dm == EV(VSub(m, g.mz))
       mu == EV(VAdd(g.mx, MVec(Tr(g.A), dm)))
-      res == EV([k \in 1..g.n |-> RDiv(RSub(g.yv[k], mu[k]), g.s2)])
+      res == EV([k \in 1..g.n |-> RDiv(RSub(g.yv[k], mu[k]), g.nv[k])])
       dLdm == EV(VSub(MVec(g.A, res), MVec(g.Ki, dm)))
-      dLdS == E(MScale(Half, MSub(E(Inv(S)), MAdd(g.Ki, MScale(RDiv(ROne, g.s2), E(MMul(g.A, Tr(g.A))))))))
+      AD == E(Mk(g.M, g.n, LAMBDA a, b : RDiv(g.A[a][b], g.nv[b])))                             \* A diag(nv)^-1
+      dLdS == E(MScale(Half, MSub(E(Inv(S)), MAdd(g.Ki, E(MMul(AD, Tr(g.A)))))))
       sc == RDiv(R(-1), R(g.n))
   IN <<EV(VScale(sc, dLdm)), E(MScale(sc, dLdS))>>
 \* _NaturalToMuVarSqrt._backward: gradient w.r.t. the expectation parameters (eta1 = m, eta2 = m m^T + S)
@@ -304,15 +341,90 @@ LatticeOut(cell) ==
   ELSE [value |-> "definition", bound |-> "N*ELBO <= log marginal",
         step1 |-> IF cell.dist = "natural" THEN "optimum" ELSE "vector-optimal, matrix first order",
         step2 |-> IF cell.dist = "natural" THEN "fixed point" ELSE "not stated"]
-LatticeOK == Part = "lattice" => (c.sec = "ngd" \/ (out.collapsed = "attained" <=> c.qfam = "post"))
+
+\* ---- "noise" cells: the noise variance of minibatch point k ------------------------------------------------------------------
+\* The data set has Ns points with KNOWN per-point noise, stored in a FixedNoiseGaussianLikelihood (StoredVal(j), j in 1..Ns).
+\* The minibatch is the index sequence idx into the data set: B = Len(idx) < Ns (subset), = Ns (stored order, a permutation, a
+\* resample with replacement), = Ns + 1.  kw: what the caller passes as `noise=` through the objective: "none"; "gathered" = the
+\* minibatch's own noise values StoredVal(idx[k]) (DataLoader over (x, y, noise)); "fresh" = values unrelated to the stored ones (a
+\* held-out batch).  learn: learn_additional_noise, a homoskedastic term added to every point.  The symbolic values are resolved to
+\* real noise levels by the replay.
+NoiseIdx == UNION {[1..B -> 1..3] : B \in 1..4}
+NoiseCells == {cf \in [sec : {"noise"}, strat : {"whitened", "unwhitened"}, Ns : 2..3, idx : NoiseIdx, kw : {"none", "gathered", "fresh"}, learn : BOOLEAN] :
+                 Len(cf.idx) <= cf.Ns + 1 /\ \A k \in 1..Len(cf.idx) : cf.idx[k] <= cf.Ns}
+StoredVal(j) == j
+FreshVal(k)  == 10 + k
+KwVal(cf, k) == IF cf.kw = "gathered" THEN StoredVal(cf.idx[k]) ELSE FreshVal(k)
+\* definition: the caller's per-point values in the caller's order; without them the likelihood's own values, which are only
+\* defined for a batch of the stored size (by position); otherwise the term is not defined (defined = FALSE: not replayed)
+DefNoise(cf) ==
+  LET B == Len(cf.idx)
+  IN IF cf.kw # "none" THEN [defined |-> TRUE, base |-> [k \in 1..B |-> KwVal(cf, k)], second |-> cf.learn]
+     ELSE IF B = cf.Ns THEN [defined |-> TRUE, base |-> [k \in 1..B |-> StoredVal(k)], second |-> cf.learn]
+     ELSE [defined |-> FALSE, base |-> <<>>, second |-> cf.learn]
+\* transcription: FixedGaussianNoise.forward (if noise is not None / elif shape[-1] == self.noise.shape[-1] / else Zero) and
+\* FixedNoiseGaussianLikelihood._shaped_noise_covar (res + second_noise_covar(..., kwargs without "noise"))
+CodeNoise(cf) ==
+  LET B == Len(cf.idx)
+      base == IF cf.kw # "none" THEN [k \in 1..B |-> KwVal(cf, k)]
+              ELSE IF B = cf.Ns THEN [k \in 1..B |-> StoredVal(k)]
+              ELSE [k \in 1..B |-> 0]
+  IN [base |-> base, second |-> cf.learn]
+\* every point carries the noise of ITS data point whenever the caller gathered the values with the batch
+OwnNoise(cf) == cf.kw = "gathered" => \A k \in 1..Len(cf.idx) : DefNoise(cf).base[k] = StoredVal(cf.idx[k])
+NoiseOut(cf) == LET d == DefNoise(cf)  cd == CodeNoise(cf)
+                IN [defined |-> d.defined, base |-> d.base, second |-> d.second, code |-> cd,
+                    agree |-> (d.defined => (cd.base = d.base /\ cd.second = d.second)), own |-> OwnNoise(cf),
+                    value |-> "definition with the per-point noise", bound |-> "N*ELBO <= log marginal with diag(noise)"]
+
+\* ---- "hist" cells: history of the raw variational parameters (a state machine) ------------------------------------------------
+\* The objective is a function of q(u) as the variational distribution REPORTS it; the raw tensors behind it may be in any
+\* position.  th.pos: "fresh" (initialised by the strategy from its prior at the first call), "moved" (optimiser steps from
+\* there), "generic" (arbitrary dense tensors were loaded: a non-triangular Cholesky factor, a non-symmetric natural matrix,
+\* negative standard deviations; stays generic under optimiser steps).  th.opt: q(u) is the optimal one (a natural-gradient
+\* step of size one was the last move of the variational parameters and the hyperparameters have not moved since).
+\* Actions: load_dense (load_state_dict of dense raw tensors), assign_dense (in-place assignment of dense raw tensors),
+\* sgd (SGD step on the variational parameters), adam (Adam step on every parameter), ngd / ngd1 (natural-gradient step of size
+\* 3/10 / 1 on the natural parameters), hyper (Adam step on the hyperparameters only).
+HDists == {"cholesky", "meanfield", "delta", "natural", "tril"}
+HistCells == [sec : {"hist"}, strat : {"whitened", "unwhitened"}, dist : HDists, lik : {"gaussian", "fixed"}]
+LoadActs == {"load_dense", "assign_dense"}
+HistActs(d) == LoadActs \cup (CASE d = "natural" -> {"ngd", "ngd1", "hyper"} [] d = "tril" -> {"ngd", "sgd", "adam"} [] OTHER -> {"sgd", "adam"})
+AllHistActs == UNION {HistActs(d) : d \in HDists}
+HistOut(cell, t) ==
+  [value |-> "definition at the reported q(u)",
+   kl    |-> IF cell.dist = "delta" THEN "-log p(u) at the point" ELSE "KL(reported q(u) || p(u))",
+   bound |-> IF cell.dist = "delta" THEN "not stated" ELSE "N*ELBO <= log marginal",
+   gap   |-> IF cell.dist = "delta" THEN "not stated" ELSE IF t.opt THEN "attained" ELSE "collapsed - KL(q || q_opt)",
+   pos   |-> t.pos]
+HistStep(a) ==
+  /\ c.sec = "hist" /\ a \in HistActs(c.dist) /\ Len(hist) < MaxSteps
+  /\ th' = [pos |-> IF a \in LoadActs THEN "generic" ELSE IF th.pos = "generic" THEN "generic" ELSE "moved",
+            opt |-> IF a = "ngd1" /\ c.dist = "natural" THEN TRUE ELSE IF a = "ngd" /\ c.dist = "natural" THEN th.opt ELSE FALSE]
+  /\ hist' = Append(hist, a)
+  /\ out' = HistOut(c, th')
+  /\ UNCHANGED c
+HistOK == (Part = "lattice" /\ c.sec = "hist") =>
+            /\ out = HistOut(c, th)
+            /\ (th.pos = "fresh" <=> hist = <<>>)
+            /\ (th.pos = "generic" <=> \E k \in 1..Len(hist) : hist[k] \in LoadActs)
+            /\ (th.opt => \E k \in 1..Len(hist) : hist[k] = "ngd1" /\ \A j \in (k + 1)..Len(hist) : hist[j] = "ngd")
+GenericSticky == [][(Part = "lattice" /\ c.sec = "hist" /\ th.pos = "generic") => th'.pos = "generic"]_vars
+
+Lattice2Out(cell) == IF cell.sec = "noise" THEN NoiseOut(cell) ELSE IF cell.sec = "hist" THEN HistOut(cell, [pos |-> "fresh", opt |-> FALSE]) ELSE LatticeOut(cell)
+NoiseOK == (Part = "lattice" /\ c.sec = "noise") => (out.agree /\ out.own)
+LatticeOK == Part = "lattice" => (c.sec \in {"ngd", "noise", "hist"} \/ (out.collapsed = "attained" <=> c.qfam = "post"))
 
 \* ============================ machine ==========================================================
 Init ==
   \/ Part = "assembly" /\ c \in Configs /\ out = AssemblyOut(c) /\ th = <<>> /\ hist = <<>>
   \/ Part = "bound"    /\ c \in [inst : Instances, q : QFamily] /\ out = BoundOut(c.inst, c.q) /\ th = <<>> /\ hist = <<>>
   \/ Part = "ngd"      /\ c \in [inst : Instances, q0 : NgdInits] /\ th = Init0(c.inst, c.q0) /\ hist = <<>> /\ out = NgdOut(c, th)
-  \/ Part = "lattice"  /\ c \in (BoundCells \cup NgdCells \cup EqualCells) /\ out = LatticeOut(c) /\ th = <<>> /\ hist = <<>>
+  \/ Part = "lattice"  /\ c \in (BoundCells \cup NgdCells \cup EqualCells \cup NoiseCells \cup HistCells) /\ out = Lattice2Out(c)
+                        /\ th = (IF c.sec = "hist" THEN [pos |-> "fresh", opt |-> FALSE] ELSE <<>>) /\ hist = <<>>
 Next ==
-  IF Part = "ngd" THEN NGDStep("ngd1") \/ NGDStep("ngdhalf") \/ HyperStep ELSE UNCHANGED vars
+  IF Part = "ngd" THEN NGDStep("ngd1") \/ NGDStep("ngdhalf") \/ HyperStep
+  ELSE IF Part = "lattice" THEN (\E a \in AllHistActs : HistStep(a)) \/ UNCHANGED vars
+  ELSE UNCHANGED vars
 Spec == Init /\ [][Next]_vars
 =============================================================================
